@@ -14,12 +14,13 @@ Section Inst.
 
   Definition i_parse (t : list string) (name : string) (_ : unit) : option (list string) :=
     if render_failed then None else Some (name :: t).
-  Definition i_exec (_ : list string) (name : string) (_ : unit) : option string := aget name rendered.
+  Definition i_exec (_ : list string) (_ : unit) (name : string) (_ : unit) : option (string * unit) :=
+    match aget name rendered with Some s => Some (s, tt) | None => None end.
   Definition i_split (c : string) : list string := match aget c splits with Some d => d | None => [] end.
   Definition i_head (d : string) : option head := match aget d heads with Some h => h | None => None end.
 
   Definition run_pipeline (o : opts) (chart_name : string) (crds : list (string * string))
              (sh1 sh2 : list (string * string) -> list (string * string)) (keys : list string) : result :=
-    pipeline (list string) [] unit i_parse i_exec i_split i_head o chart_name crds sh1 sh2
+    pipeline (list string) [] unit i_parse unit tt i_exec i_split i_head o chart_name crds sh1 sh2
              (map (fun k => (k, tt)) keys).
 End Inst.
